@@ -434,12 +434,12 @@ impl Rect {
     #[inline]
     pub fn expand(self) -> Rect {
         // The compiler optimizer will remove the if branching.
-        let (x0, x1) = if self.x0 < self.x1 {
+        let (x0, x1) = if self.x0 <= self.x1 {
             (self.x0.floor(), self.x1.ceil())
         } else {
             (self.x0.ceil(), self.x1.floor())
         };
-        let (y0, y1) = if self.y0 < self.y1 {
+        let (y0, y1) = if self.y0 <= self.y1 {
             (self.y0.floor(), self.y1.ceil())
         } else {
             (self.y0.ceil(), self.y1.floor())
@@ -489,12 +489,12 @@ impl Rect {
     #[inline]
     pub fn trunc(self) -> Rect {
         // The compiler optimizer will remove the if branching.
-        let (x0, x1) = if self.x0 < self.x1 {
+        let (x0, x1) = if self.x0 <= self.x1 {
             (self.x0.ceil(), self.x1.floor())
         } else {
             (self.x0.floor(), self.x1.ceil())
         };
-        let (y0, y1) = if self.y0 < self.y1 {
+        let (y0, y1) = if self.y0 <= self.y1 {
             (self.y0.ceil(), self.y1.floor())
         } else {
             (self.y0.floor(), self.y1.ceil())
